@@ -26,6 +26,12 @@ func (s *ibStrategy) Sign(data []byte) ([]byte, error) {
 	if s.mode == "garbage" {
 		sig[5] ^= 0x40
 	}
+	if s.mode == "padded" { // a correct signature followed by extra bytes is not an Ed25519 signature
+		sig = append(sig, make([]byte, 1+len(data)%9)...)
+	}
+	if s.mode == "short" {
+		sig = sig[:63]
+	}
 	return sig, nil
 }
 func (s *ibStrategy) GetPublicKey() (ed25519.PublicKey, error) { return s.pub, nil }
@@ -95,6 +101,7 @@ func ibRun(args []string) error {
 	stratSeqs := [][]string{{"match"}, {"wrongkey"}, {"garbage"}, {"match", "match"}, {"match", "wrongkey"}, {"wrongkey", "match"}, {"garbage", "match", "match"}, {"match", "garbage", "match"}, {"match", "match", "match"},
 		// the library's own strategy (ParsedEd25519KeySigningStrategy): with a sound key, and with a private key whose halves
 		// disagree (seed of one key, cached public half of another) - the signature it makes verifies under no key
+		{"padded"}, {"short"}, {"match", "padded", "match"},
 		{"builtin"}, {"builtinbad"}, {"builtin", "builtinbad", "match"}, {"match", "builtinbad"}}
 	sizes := []int{8, 9, 100, 1000, 70000}
 	if thorough {
